@@ -451,6 +451,10 @@ def c07_curated():
         rule(H("both_dst", x, y), Cl("edge", _, x), Cl("edge", _, y), If(Bin("!=", x, y))),
         rule(H("mix", x, y), Cl("t", x, _, _), Cl("t", _, y, _), Cl("t", _, _, x)),
         rule(H("edge", x, y), Cl("mix", x, y), Cl("edge", _, y), Cl("edge", _, x))]))
+    # an expression argument mixing a variable bound by an earlier clause with one bound in its own clause
+    P.append(Program("expr_arg_mixed", [R("foo", I, I), R("bar", I, I), R("res", I, I), R("res2", I, I)], [
+        rule(H("res", x, y), Cl("foo", x, _), Cl("bar", y, Bin("%", Bin("+", x, y), C(3)))),
+        rule(H("res2", x, y), Cl("bar", y, _), Cl("foo", x, Bin("%", Bin("+", Bin("*", x, C(2)), y), C(3))), Cl("bar", Bin("%", Bin("+", x, y), C(3)), _))]))
     P.append(Program("pattern_args", [R("o", OI, I), R("e", I, I), R("r", I, I), R("s", I)], [
         rule(H("r", x, y), Cl("o", Pat(PC("Some", PV("x"))), y)),
         rule(H("s", x), Cl("o", Pat(PC("Some", PV("x"))), y), Cl("e", y, x), Cl("o", _, y)),
